@@ -1,11 +1,74 @@
 import EpdVerif.Drivers.Dsl
 import EpdVerif.Gen.Epd7in3f
-/-! model of `src/epd7in3f/mod.rs` (STUB: programs not yet transcribed) -/
+/-! model of `src/epd7in3f/mod.rs` -/
 namespace EpdVerif.Drivers.Epd7in3f
 open EpdVerif
 open EpdVerif.Gen.Epd7in3f
 
-def prog (_f : Feat) (_d : DState) : Op → Option (List Act)
+/-- `self.wait_busy_low` = `interface.wait_until_idle(delay, true)` -/
+def W : Act := .wait true
+
+/-- `OctColor::colors_byte(a, b)` = `a.get_nibble() << 4 | b.get_nibble()` (u8) -/
+def colorsByte (a b : Nat) : UInt8 := u8 ((a <<< 4) ||| b)
+
+def init : List Act :=
+  [.reset 20000 2000, W, .delayMs 30] ++
+  cmdData Command.CMDH [0x49, 0x55, 0x20, 0x08, 0x09, 0x18] ++
+  cmdData Command.Ox01 [0x3F, 0x00, 0x32, 0x2A, 0x0E, 0x2A] ++
+  cmdData Command.Ox00 [0x5F, 0x69] ++
+  cmdData Command.Ox03 [0x00, 0x54, 0x00, 0x44] ++
+  cmdData Command.Ox05 [0x40, 0x1F, 0x1F, 0x2C] ++
+  cmdData Command.Ox06 [0x6F, 0x1F, 0x1F, 0x22] ++
+  cmdData Command.Ox08 [0x6F, 0x1F, 0x1F, 0x22] ++
+  cmdData Command.IPC [0x00, 0x04] ++
+  cmdData Command.Ox30 [0x3C] ++
+  cmdData Command.TSE [0x00] ++
+  cmdData Command.Ox50 [0x3F] ++
+  cmdData Command.Ox60 [0x02, 0x00] ++
+  cmdData Command.Ox61 [0x03, 0x20, 0x01, 0xE0] ++
+  cmdData Command.Ox82 [0x1E] ++
+  cmdData Command.Ox84 [0x00] ++
+  cmdData Command.AGID [0x00] ++
+  cmdData Command.OxE3 [0x2F] ++
+  cmdData Command.CCSET [0x00] ++
+  cmdData Command.TSSET [0x00]
+
+def updateFrame (b : Bytes) : List Act := [W] ++ cmdData Command.DataStartTransmission b
+
+def displayFrame : List Act :=
+  [.cmd Command.PowerOn, W] ++
+  cmdData Command.DataFresh [0x00] ++ [W] ++
+  cmdData Command.PowerOff [0x00] ++ [W]
+
+/-- the `color_7` array of `show_7block` (nibble values) -/
+def color7 : List Nat := [0, 1, 2, 3, 4, 5, 6, 1]
+
+/-- `for _ in 0..240 { for color in cs { for _ in 0..100 { data(&[colors_byte(c, c)]) } } }` -/
+def blockRows (cs : List Nat) : List Act :=
+  (List.replicate 240
+    (cs.flatMap fun c => List.replicate 100 (Act.data [colorsByte c c]))).flatten
+
+def show7block : List Act :=
+  [.cmd Command.DataStartTransmission] ++
+  blockRows (color7.take 4) ++
+  blockRows (color7.drop 4) ++
+  displayFrame
+
+def prog (_f : Feat) (d : DState) : Op → Option (List Act)
+  | .new => some init
+  | .wake => some init
+  | .sleep => some (cmdData Command.DeepSleep [0xA5])
+  | .upd b => some (updateFrame b)
+  | .part _ _ _ _ _ => some [.panic]
+  | .disp => some displayFrame
+  | .updisp b => some (updateFrame b ++ displayFrame)
+  | .clear =>
+    some ([W, .cmd Command.DataStartTransmission,
+           .rep (colorsByte d.bg d.bg) (WIDTH * HEIGHT / 2)] ++ displayFrame)
+  | .bg c => some [.upd (fun d => { d with bg := c })]
+  | .lut _ => some [.panic]
+  | .wait => some [W]
+  | .sevenBlock => some show7block
   | _ => none
 
 def panel (f : Feat) : Panel :=
